@@ -189,6 +189,7 @@ def _all_possible_datastore_states(
     #  ((1, 1), (0,)),
     #  ((1, 1), (1,)),
     #  ((1, 1), (2,))]
+    keys = tuple(keys)  # walked once here and once per row below
     all_possible_measurements = itertools.product(
         *[
             tuple(itertools.product(*[range(q.dimension) for q in measurement_qubits[k][i]]))
